@@ -64,18 +64,12 @@ Lemma vis_exported : forall i, vin_consistent i = true -> is_exported i = Some (
 Proof. intros i Hc. apply (lift_table vin_consistent is_exported doc_is_exported); [vm_compute; reflexivity|exact Hc]. Qed.
 Lemma vis_wildcard : forall i, vin_consistent i = true -> is_wildcard_exposed i = Some (doc_is_wildcard_exposed i).
 Proof. intros i Hc. apply (lift_table vin_consistent is_wildcard_exposed doc_is_wildcard_exposed); [vm_compute; reflexivity|exact Hc]. Qed.
-Lemma vis_public_modulo_known : forall i, vin_consistent i = true -> gap_empty_all i = false ->
-  is_public i = Some (doc_is_public i).
-Proof.
-  intros i Hc Hg. apply (lift_table (fun i => vin_consistent i && negb (gap_empty_all i)) is_public doc_is_public).
-  - vm_compute. reflexivity.
-  - rewrite Hc, Hg. reflexivity.
-Qed.
+Lemma vis_public : forall i, vin_consistent i = true -> is_public i = Some (doc_is_public i).
+Proof. intros i Hc. apply (lift_table vin_consistent is_public doc_is_public); [vm_compute; reflexivity|exact Hc]. Qed.
 
-(* witness: a public-named function in a module with __all__ = [] *)
+(* regression example: a public-named function in a module with __all__ = [] is not public (was finding F4) *)
 Definition empty_all_vin : vin := mkVin None false false false false false true true false (Some (false, false)) false true.
-Lemma vis_public_refuted : vin_consistent empty_all_vin = true /\ is_public empty_all_vin = Some true
-                           /\ doc_is_public empty_all_vin = false.
+Example empty_all_not_public : vin_consistent empty_all_vin = true /\ is_public empty_all_vin = Some false.
 Proof. vm_compute. auto. Qed.
 
 (* ---- statements packaged for Properties/C01.v ---- *)
@@ -84,13 +78,7 @@ Lemma visibility_table_names : forall i,
   is_class_private i = Some (doc_is_class_private i) /\ is_imported i = Some (doc_is_imported i).
 Proof. intro i. repeat split. exact (vis_special i). exact (vis_private i). exact (vis_class_private i). exact (vis_imported i). Qed.
 
-Lemma visibility_table_exposure : forall i, vin_consistent i = true ->
-  is_exported i = Some (doc_is_exported i) /\ is_wildcard_exposed i = Some (doc_is_wildcard_exposed i).
-Proof. intros i Hc. split. exact (vis_exported i Hc). exact (vis_wildcard i Hc). Qed.
-
-Lemma visibility_table_modulo_known : forall i, vin_consistent i = true -> gap_empty_all i = false ->
+Lemma visibility_table : forall i, vin_consistent i = true ->
+  is_exported i = Some (doc_is_exported i) /\ is_wildcard_exposed i = Some (doc_is_wildcard_exposed i) /\
   is_public i = Some (doc_is_public i).
-Proof. exact vis_public_modulo_known. Qed.
-
-Lemma visibility_table_refuted : exists i, vin_consistent i = true /\ is_public i = Some true /\ doc_is_public i = false.
-Proof. exists empty_all_vin. exact vis_public_refuted. Qed.
+Proof. intros i Hc. repeat split. exact (vis_exported i Hc). exact (vis_wildcard i Hc). exact (vis_public i Hc). Qed.
